@@ -213,7 +213,7 @@ def regen_modules(root, pid):
 
 # corollaries at the real instance cxA (hypotheses cx.WF / DefaultsOk / positive byte lengths discharged)
 REGEN_CXA = {"Chars": ["editorChars_cxA"], "Lines": ["editorLinesSel_cxA"], "Edit": ["editorInsert_cxA", "editorDelete_cxA"],
-             "WrapOpts": ["editorWrapOpts_cxA"], "IndentOpts": ["editorIndentOpts_cxA"],
+             "WrapOpts": ["editorWrapOpts_cxA", "phFresh_cxA"], "IndentOpts": ["editorIndentOpts_cxA"],
              "Paras": ["editorApplyGParagraphsOpts_cxA", "defaultsOk_cxA", "literal_map_cxA"],
              "InsertTable": ["editorInsertTableOpts_cxA"]}
 
